@@ -151,12 +151,14 @@ fn mutate(seeds: &str, seed: u64, n: u64, out: &str) -> i32 {
                 inp[k] = sub;
             }
         }
+        std::fs::write(format!("{}.pending", out), inp.to_string()).ok();
         let res = crate::guarded(&op, &inp);
         if res["outcome"] == "toolerr" {
             continue; // the mutated value is not representable (over capacity): not an event
         }
         let ev = json!({"line": written, "op": op, "outcome": res["outcome"], "obs": res["obs"], "msg": res.get("msg").cloned().unwrap_or(json!("")), "in": inp});
         writeln!(w, "{}", ev).unwrap();
+        w.flush().unwrap();
         written += 1;
     }
     w.flush().unwrap();
@@ -197,10 +199,12 @@ fn arbitrary_driver(seed: u64, n: u64, out: &str) -> i32 {
     for data in inputs.iter().take(n as usize) {
         for g in gens {
             let inp = json!({"op": "arbitrary", "tag": "arbitrary", "gen": g, "data": crate::proj::bytes(data)});
+            std::fs::write(format!("{}.pending", out), inp.to_string()).ok();
             let res = crate::guarded("arbitrary", &inp);
             let ev = json!({"line": line, "op": "arbitrary", "outcome": res["outcome"], "obs": res["obs"],
                             "msg": res.get("msg").cloned().unwrap_or(json!("")), "in": inp});
             writeln!(w, "{}", ev).unwrap();
+            w.flush().unwrap();
             line += 1;
         }
     }
